@@ -13,8 +13,9 @@
 -/
 import Gozod.Drv.C08
 import Gozod.Model.DefData
+import Gozod.Model.ConvOpts
 namespace Gozod.Drv.C12
-open Gozod.Store Gozod.Drv.C08 Gozod.DefData
+open Gozod.Store Gozod.Drv.C08 Gozod.DefData Gozod.ConvOpts
 
 /-! registry entries and registry-writing checks as the harness codes them:
     entry `-` | `<id>.<title>.<descr>.<e1>+<e2>+…`; check `D<descr>` | `M<id>.<title>.<descr>.<examples>`;
@@ -76,9 +77,75 @@ def defRead (σ : Store) (dtok : String) : Store × String :=
       (r.1, "m" ++ showGraph 8 r.1.heap (.ref r.2))
     | (σ1, _) => (σ1, "m-")
 
+/-! in-place rewriting of documents (histories H9): slot 7 of a conv step is `0` or `W<mut>/<items>`, items `-` or
+    `<j>=<entry before>:<flags>,…` — the live schemas whose GlobalRegistry entry's example list the document of this conversion
+    holds (measured on a scout replica), flags `s` = in the returned document, `h` = in a node handed to the Override.
+    Option set 14 = an Override that rewrites in place every list of every node it is handed (stores the sentinel), 15 = the caller
+    does the same to the returned document.  The model: `ConvOpts.convertO` with `copy = examplesCopy`. -/
+
+/-- `applyMeta` as it stands: `jsonSchema.Examples = meta.Examples` (no clone). pending/C12-examples-clone.diff makes it `true`. -/
+def examplesCopy : Bool := false
+
+structure WItem where
+  j : Nat
+  pre : Option GMeta
+  shown : Bool
+  handed : Bool
+
+def parseWItem (s : String) : Option WItem :=
+  match s.splitOn "=" with
+  | [j, rest] =>
+    match rest.splitOn ":" with
+    | [e, fl] => do
+      let j ← j.toNat?
+      let pre ← parseEntry e
+      some ⟨j, pre, fl.contains 's', fl.contains 'h'⟩
+    | _ => none
+  | _ => none
+
+def parseW (s : String) : Option (Nat × List WItem) :=
+  if s == "0" then some (0, [])
+  else if s.startsWith "W" then
+    match ((s.drop 1).toString).splitOn "/" with
+    | [m, items] => do
+      let m ← m.toNat?
+      if items == "-" then some (m, []) else do
+        let its ← (items.splitOn ",").mapM parseWItem
+        some (m, its)
+    | _ => none
+  else none
+
+/-- The registry entry after a document holding its example list has been rewritten in place — by the model: the list is a
+    cell of a store, the registry hands it to `convertO` (`copy = examplesCopy`), the Override (`byCallback`) or the caller
+    (`overrideWrites` on the returned node) stores the sentinel into every slot, the registry's cell is read back. -/
+def rewriteEntry (byCallback : Bool) (mutc : Nat) (e : GMeta) : GMeta :=
+  let σ0 : Store := { heap := fun _ => none, next := 1 }
+  match mkSlice σ0 (e.examples.map UVal.scalar) with
+  | (σ1, .ref l) =>
+    let g : Reg := fun t => if t = 0 then some ⟨e.id, e.title, e.descr, some l⟩ else none
+    let s : Schema := { self := 0, kind := 0, flags := 0, checks := ⟨0, 0, 0⟩, bag := none, values := none, shape := none, dflt := none }
+    let rw : List (Nat × UVal) → List (Nat × UVal) := fun kv => kv.map (fun p => (p.1, UVal.scalar mutc))
+    let final : Store :=
+      if byCallback then (convertO fixed examplesCopy ⟨⟨0, 0, 0, 0, 0⟩, none, none, some ⟨fun _ v => v, fun _ => rw⟩⟩ g σ1 s).1
+      else
+        let r := convertO fixed examplesCopy noOpts g σ1 s
+        overrideWrites r.1 r.2.examples rw
+    { e with examples := (readNode final.heap l).map (fun p => match p.2 with | .scalar n => n | .ref _ => 0) }
+  | _ => e
+
+def editedBefore (mutc : Nat) (it : WItem) : Bool :=
+  match it.pre with
+  | some e => !e.examples.isEmpty && e.examples.all (· == mutc)
+  | none => false
+
 def stepModel12 (cfg : Cfg) (st : St) (toks : List String) : Option St :=
   match toks with
-  | [recv, "conv", _opt, dtok, metas, _, _, _, _] => do
+  | [_recv, "convreg", _, _, _, _, _, _, _] =>
+    -- ToJSONSchema(registry): purity is claimed (no live schema changes), determinism is not (`c12_ranges_partial` excludes the
+    -- `Registry.Range` loop: `registry_range_order_sensitive`): verdict `r` = "the document may differ"
+    some { st with verdicts := st.verdicts ++ ["r:"], structs := st.structs ++ ["g"] }
+  | [recv, "conv", opt, dtok, metas, _, _, wtok, _] => do
+    let (mutc, witems) ← parseW wtok
     let i ← recv.toNat?
     let s ← st.live[i]?
     let visits ← parseVisits metas
@@ -93,15 +160,35 @@ def stepModel12 (cfg : Cfg) (st : St) (toks : List String) : Option St :=
     let bagChanged := (List.range st.live.length).filter (fun j => before[j]?.map (·.bag) != after[j]?.map (·.bag))
     -- the registry-writing callbacks of every visited schema (`annotateEntry`); aliases of a schema in the live list
     -- (same identity) change with it
-    let posts := visits.map (fun v => (v.1, v.2.1, annotateEntry v.2.1 v.2.2))
-    let regChanged := (posts.filter (fun p => p.2.1 != p.2.2)).map (·.1)
+    let posts0 := visits.map (fun v => (v.1, v.2.1, annotateEntry v.2.1 v.2.2))
+    -- in-place rewriting through the document (after the callbacks of the checks have run): the entries whose example list
+    -- the rewritten nodes hold
+    let byCallback := opt == "14"
+    let edits := witems.filter (fun it => if opt == "14" then it.handed else if opt == "15" then it.shown else false)
+    let preOf (it : WItem) : Option GMeta :=
+      match posts0.find? (fun p => p.1 == it.j) with
+      | some p => p.2.2
+      | none => it.pre
+    let wposts := edits.map (fun it => (it.j, preOf it, (preOf it).map (rewriteEntry byCallback mutc)))
+    let finalOf (j : Nat) (dflt : Option GMeta) : Option GMeta :=
+      match wposts.find? (fun p => p.1 == j) with
+      | some p => p.2.2
+      | none => dflt
+    let posts := posts0.map (fun p => (p.1, p.2.1, finalOf p.1 p.2.2))
+    let wChanged := (wposts.filter (fun p => (witems.find? (fun it => it.j == p.1)).bind (·.pre) != p.2.2)).map (·.1)
+    let regChanged := (posts.filter (fun p => p.2.1 != p.2.2)).map (·.1) ++ wChanged
     let withAliases := (List.range st.live.length).filter (fun j =>
       regChanged.any (fun k => match st.live[j]?, st.live[k]? with | some a, some b => a.self == b.self | _, _ => false))
     let changed := (withAliases ++ regChanged).foldl (fun acc x => insertSorted x acc) changed0
     -- the document is a function of the observation: equal to the isolated conversion iff the observation is
+    -- … except through a registry entry rewritten in place earlier: a document that shows such an entry differs from the
+    -- isolated twin's (under option set 14 the twin's Override rewrites the lists of the nodes it is handed in the same way; a
+    -- list that is only in the returned document — the `$defs` entry of a schema with an ID, whose node is a `$ref` — is not)
     let same := (obs σ'.heap s').checks == (obs st.σ.heap s).checks   -- checks never change; bag effects show in `changed`
+                && !(witems.any (fun it => it.shown && editedBefore mutc it && !(opt == "14" && it.handed)))
     let r := if posts.isEmpty then "" else "r" ++ ",".intercalate (posts.map (fun p => s!"{p.1}={showGMeta p.2.2}"))
-    let g := s!"g{idxList bagChanged}{mpart}{r}"
+    let w := if wposts.isEmpty then "" else "w" ++ ",".intercalate (wposts.map (fun p => s!"{p.1}={showGMeta p.2.2}"))
+    let g := s!"g{idxList bagChanged}{mpart}{r}{w}"
     some { st with σ := σ', verdicts := st.verdicts ++ [s!"{if same then 1 else 0}:{idxList changed}"],
                    structs := st.structs ++ [g] }
   | [_recv, "parse", _, _, _, _, _, _, _] =>
